@@ -230,7 +230,7 @@ func setupOracle(e *Env, o core.RunOpts) error {
 	e.W = w
 	w.F = faults
 	act := &OracleActor{MaxOpen: e.Ch.Range("cfg.oracle.maxopen", 1, 6), ReqRate: 150 + e.Ch.Intn("cfg.oracle.reqrate", 500),
-		Scripts: []int{scriptEcho, scriptSimple, scriptNoRet, scriptTrap, scriptBadPre, scriptNoRaw, scriptEmpty, scriptProbe}, NumDS: len(dss),
+		Scripts: []int{scriptEcho, scriptSimple, scriptNoRet, scriptTrap, scriptBadPre, scriptNoRaw, scriptEmpty, scriptProbe, scriptDesc}, NumDS: len(dss),
 		ActivateP: 1000, Byz: e.Ch.Intn("cfg.oracle.byz", 400), ReactivateP: 100}
 	if e.Ch.Bool("cfg.oracle.someinactive", 300) {
 		act.ActivateP = 700
@@ -924,7 +924,7 @@ func setupFuzz(e *Env, o core.RunOpts) error {
 		lazy[v.Val.String()] = []int{0, 100, 400}[e.Ch.Intn("cfg.feeder.lazy", 3)]
 	}
 	e.Actors = append(e.Actors, gov,
-		&OracleActor{MaxOpen: 3, ReqRate: 200, Scripts: []int{scriptEcho, scriptSimple, scriptNoRet, scriptTrap, scriptBadPre, scriptNoRaw, scriptEmpty, scriptProbe}, NumDS: len(dss), ActivateP: 900, ReactivateP: 250, Byz: 150,
+		&OracleActor{MaxOpen: 3, ReqRate: 200, Scripts: []int{scriptEcho, scriptSimple, scriptNoRet, scriptTrap, scriptBadPre, scriptNoRaw, scriptEmpty, scriptProbe, scriptDesc}, NumDS: len(dss), ActivateP: 900, ReactivateP: 250, Byz: 150,
 			TSSEncoder: true, Requesters: voters, FeeLimit: sdk.NewCoins(sdk.NewInt64Coin("uband", 1000), sdk.NewInt64Coin("uusd", 1000))},
 		&StakeActor{Voters: voters, Rate: 200, Denoms: []string{"uusd", "uatom", "uband"}, VaultKeys: []string{"vaultA"}},
 		&VoteActor{Voters: voters, Signals: signals, Rate: 250, WrapP: 60},
